@@ -151,7 +151,9 @@ BODIES = [['none'], ['text', 'hello'], ['text', 'café € \U0001f600'], ['text'
           ['stream', 'gen', ['ab', 'cd', ''], None], ['stream', 'iter', ['x' * 10, 'y'], None], ['stream', 'file', ['f' * 20000], None],
           ['stream', 'set_stream', ['0123456789'], 10], ['stream', 'list', ['p', 'q'], None], ['stream', 'gen', [], None],
           ['stream', 'file', [''], None], ['stream+text', 'gen', ['s'], 'T'], ['stream', 'file_noclose', ['zz' * 10], None],
-          ['stream', 'set_stream', ['01234'], 3], ['stream', 'gen', ['ab', '', 'cd'], None], ['stream', 'iter', ['', 'x', '', 'y'], None]]
+          ['stream', 'set_stream', ['01234'], 3], ['stream', 'gen', ['ab', '', 'cd'], None], ['stream', 'iter', ['', 'x', '', 'y'], None],
+          ['stream', 'file_short', ['ab', 'cd', 'e' * 9000, 'f'], None], ['stream', 'file_short', ['x'], None],
+          ['stream', 'file_short', ['p' * 8192, 'q', 'r' * 8192], None], ['stream', 'set_stream_short', ['01234', '56789'], 10]]
 CONTENT_TYPES = [None, 'text/plain', 'application/json', 'text/html; charset=utf-8', 'application/x-nope',
                  'application/msgpack', '', 'application/x-www-form-urlencoded']
 HDR_OPS = [
@@ -217,7 +219,7 @@ RAISES = (
 def default_script():
     return {'read': {'mode': 'none'}, 'propagate': None, 'status': None, 'body': ['none'], 'content_type': None,
             'hdr_ops': [], 'props': [], 'links': [], 'cookies': [], 'raise': None, 'raise_at': 'early',
-            'short_circuit': False, 'file_wrapper': False}
+            'short_circuit': False, 'mw_fault': None, 'file_wrapper': False}
 
 
 def script(**kw):
@@ -385,6 +387,20 @@ def families(tier, ua):
         if body[0].startswith('stream'):
             for fw in (False, True):
                 yield 'E5.file-wrapper', mk(ua, target='/items', script_=script(body=body, file_wrapper=fw))
+    # E7 middleware stacks: both pairing modes x short-circuit position/stage x scripted faults in every hook
+    sc_list = [False, 0, 1, 3, [0, 'resource'], [3, 'resource']]
+    faults = [None] + [[i, st, k] for i, st in ((0, 'request'), (1, 'request'), (3, 'request'), (0, 'resource'), (3, 'resource'),
+                                                (0, 'response'), (1, 'response'), (2, 'response'))
+                       for k in ('http', 'exc', 'custom')]
+    for mwm in ('independent', 'dependent'):
+        for sc in sc_list:
+            for f in faults:
+                if sc is not False and f is not None and f[1] != 'response' and not thorough:
+                    continue
+                for m, p in ((('GET', '/items'), ('HEAD', '/nope'), ('POST', '/sink/a')) if thorough or f is None
+                             else (('GET', '/items'),)):
+                    yield 'E7.middleware', mk(ua, method=m, target=p, mw=mwm,
+                                              script_=script(short_circuit=sc, mw_fault=f, body=['text', 'from responder']))
     # E6 simulator argument styles
     styles = [{'explicit_host': True}, {'explicit_port': True}, {'explicit_remote': True}, {'empty_root_arg': True},
               {'empty_query_arg': True}, {'empty_body_arg': True}, {'content_type_param': True}, {'cookies_param': True},
@@ -528,8 +544,10 @@ def rand_script(rng):
     if rng.random() < 0.3:
         s['raise'] = rng.choice(RAISES)
         s['raise_at'] = rng.choice(['early', 'late'])
-    if rng.random() < 0.04:
-        s['short_circuit'] = True
+    if rng.random() < 0.06:
+        s['short_circuit'] = rng.choice([True, 0, 1, 3, [0, 'resource'], [3, 'resource']])
+    if rng.random() < 0.06:
+        s['mw_fault'] = [rng.choice([0, 1, 2, 3]), rng.choice(['request', 'resource', 'response']), rng.choice(['http', 'exc', 'custom'])]
     s['file_wrapper'] = rng.random() < 0.3
     return s
 
@@ -550,6 +568,7 @@ def rand_request(rng, ua):
     singleton_rep = special > 0.96
     req['headers'] = rand_headers(rng, singleton_rep)
     req['opts'] = rng.choice(OPTS)
+    req['mw'] = rng.choice(['independent', 'independent', 'dependent'])
     req['scheme'] = rng.choice(['http', 'http', 'https'])
     req['server'] = list(rng.choice(SERVERS))
     if rng.random() < 0.5:
@@ -585,3 +604,48 @@ def rand_request(rng, ua):
             style['none_for_empty'] = True
         with_sim(req, ua, style)
     return req
+
+
+# ---------------------------------------------------------------------------------- client histories
+
+H_DEFAULTS = [None, {}, {'Authorization': 'Bearer t0', 'X-Trace': 'd'}, {'Accept': 'application/xml'}, {'User-Agent': 'cli/1', 'X-Tenant': 't'}]
+H_STEP_HEADERS = ['absent', None, {}, {'X-Req': '1'}, {'Authorization': 'Basic enp6'}, {'Accept': 'text/html', 'X-Extra': 'e'},
+                  {'X-Trace': 'override'}]
+
+
+def _step(h, **kw):
+    st = dict(kw)
+    if h != 'absent':
+        st['headers'] = h
+    return st
+
+
+def histories(tier):
+    """Several requests through ONE client object created with default headers: every ordered pair (quick) / triple
+    (thorough) of per-request header arguments, for every kind of defaults."""
+    n = 3 if tier == 'thorough' else 2
+    for d in H_DEFAULTS:
+        for combo in itertools.product(H_STEP_HEADERS, repeat=n):
+            yield {'defaults': d, 'steps': [_step(h) for h in combo]}
+    for mwm in ('independent', 'dependent'):
+        yield {'defaults': {'X-Trace': 'd'}, 'mw': mwm, 'opts': [True, False, True],
+               'steps': [_step({'X-Req': '1'}, method='POST', target='/items/7', query='a=1,2', body='{"a": 1}',
+                               script=script(read={'mode': 'media_default'})),
+                         _step('absent', method='HEAD', target='/items/'), _step(None, method='GET', target='/nope')]}
+
+
+def rand_history(rng):
+    steps = []
+    for _ in range(rng.randint(2, 4)):
+        h = rng.choice(H_STEP_HEADERS)
+        if isinstance(h, dict) and rng.random() < 0.3:
+            h = dict(h)
+            h[rng.choice(['X-A', 'Accept', 'Cookie', 'Range', 'If-Match'])] = rng.choice(['v', 'a=1', 'bytes=0-1', '"e"'])
+        body = rng.choice(['', '', '{"a": 1}', 'hello'])
+        steps.append(_step(h, method=rng.choice(['GET', 'POST', 'PUT', 'HEAD', 'DELETE']) if not body else 'POST',
+                           target=rng.choice(['/items', '/items/7', '/u/bob/posts/7', '/nope', '/sink/x', '/items/%C3%A9']),
+                           query=rng.choice(['', 'a=1', 'a=1&b=2', 'id=7&flag=true']), body=body,
+                           script=script(read={'mode': rng.choice(['none', 'read', 'media_default'])},
+                                         status=rng.choice([None, 201, 404]), body=rng.choice(BODIES[:8]))))
+    return {'defaults': rng.choice(H_DEFAULTS), 'steps': steps, 'opts': rng.choice(OPTS),
+            'mw': rng.choice(['independent', 'dependent'])}
